@@ -15,6 +15,7 @@
 #include <atomic>
 #include <condition_variable>
 #include <cstring>
+#include <memory>
 #include <mutex>
 #include <set>
 #include <sstream>
@@ -207,6 +208,12 @@ namespace {
    {
       const ipr::Type* t = salt % 2 ? &lex.char_type() : &lex.int_type();
       for (int i = 0; i < 4; ++i) { t = &lex.get_pointer(*t); s.node(*t); }
+      auto& ri = lex.get_reference(lex.int_type());
+      auto& rri = lex.get_rvalue_reference(lex.int_type());
+      auto& pi = lex.get_pointer(lex.int_type());
+      auto& ci = lex.get_qualified(lex.const_qualifier(), lex.int_type());
+      s.node(ri); s.node(rri); s.node(pi); s.node(ci);
+      s.note(std::string("int& again: ") + (&lex.get_reference(lex.int_type()) == &ri ? "same" : "DIFFERENT") + ", refers to int: " + (&ri.refers_to() == &lex.int_type() ? "yes" : "NO"));
       s.op();
       ipr::impl::Warehouse<ipr::Type> w;
       w.push_back(lex.int_type()); w.push_back(*t);
@@ -257,6 +264,9 @@ namespace {
       s.op();
       s.note(&lex.get_label(lex.get_identifier(u8"retry")) == &lab ? "label found again" : "label LOST");
       s.note(&lex.get_linkage(u8"C") == &lex.c_linkage() ? "C linkage constant" : "C linkage LOOK-ALIKE");
+      s.note(&lex.get_as_type(lex.get_identifier(u8"int")) == static_cast<const ipr::Type*>(&lex.int_type()) ? "int by name" : "int LOOK-ALIKE");
+      s.note(&lex.get_as_type(lex.get_identifier(u8"unsigned long long")) == static_cast<const ipr::Type*>(&lex.ulong_long_type()) ? "ull by name" : "ull LOOK-ALIKE");
+      s.note(lex.specifiers(ipr::Basic_specifier{ lex.get_logogram(lex.get_string(u8"static")) }) == lex.static_specifier() and lex.decompose(lex.const_qualifier() | lex.volatile_qualifier()).size() == 2 ? "specifier basis" : "specifier basis WRONG");
       auto& x = lex.get_transfer(lex.get_linkage(u8"Java"), lex.get_calling_convention(u8"fastcall"));
       s.note(std::string(reinterpret_cast<const char*>(x.linkage().language().what().characters().data()), x.linkage().language().what().characters().size()));
    }
@@ -330,11 +340,11 @@ namespace {
             sched::barrier();
          }
          else
-            for (int round = 0; round < 2; ++round) {
+            for (int round = 0; round < 3; ++round) {
                ipr::impl::Lexicon lex;
                ipr::impl::Translation_unit unit{ lex };
                sink.op();
-               programs[(prog + round) % NPROG](lex, unit, sink, salt + round);
+               programs[(prog + round / 2) % NPROG](lex, unit, sink, salt + round / 2);       // twice the same program, then the next one
                sink.op();
             }
       }
@@ -496,6 +506,44 @@ namespace {
       }
    }
 
+   // Two Lexicons alive at once on ONE thread, the same program on both (and on a third after the first died): what they
+   // hand out is disjoint up to the constants, and each observes what a Lexicon alone observes.
+   void two_alive_on_one_thread()
+   {
+      for (int p = 0; p < NPROG; ++p) {
+         ThreadResult a, b, c;
+         prepare(a); prepare(b); prepare(c);
+         Sink sa{ &a.trace, &a.nodes }, sb{ &b.trace, &b.nodes }, sc{ &c.trace, &c.nodes };
+         {
+            auto la = std::make_unique<ipr::impl::Lexicon>();
+            auto ua = std::make_unique<ipr::impl::Translation_unit>(*la);
+            ipr::impl::Lexicon lb;
+            ipr::impl::Translation_unit ub{ lb };
+            programs[p](*la, *ua, sa, 0);
+            programs[p](lb, ub, sb, 0);
+            std::set<const void*> na(a.nodes.begin(), a.nodes.end());
+            for (auto q : b.nodes)
+               if (na.count(q) and not constants.count(q)) {
+                  rep.violation("C20:node-shared-between-lexicons", p, std::string("two Lexicons alive on one thread running ") + program_name[p] + " were handed the same node, and it is not one of the built-in constants", vf::JObj{}.str("pass", "C20").raw("ops", vf::jarr(std::vector<long long>{ 2, p })).raw("schedule", "[]").done());
+                  break;
+               }
+            ua.reset(); la.reset();                  // the first one dies; a third one is used next to the second
+            ipr::impl::Lexicon lc;
+            ipr::impl::Translation_unit uc{ lc };
+            programs[p](lc, uc, sc, 0);
+            std::set<const void*> nb(b.nodes.begin(), b.nodes.end());
+            for (auto q : c.nodes)
+               if (nb.count(q) and not constants.count(q)) { rep.violation("C20:node-shared-between-lexicons", p, std::string("a Lexicon created after another one died was handed a node of a still living third one (") + program_name[p] + ")", vf::JObj{}.str("pass", "C20").raw("ops", vf::jarr(std::vector<long long>{ 2, p })).raw("schedule", "[]").done()); break; }
+         }
+         ThreadResult alone;
+         prepare(alone);
+         { ipr::impl::Lexicon l; ipr::impl::Translation_unit u{ l }; Sink s1{ &alone.trace, &alone.nodes }; programs[p](l, u, s1, 0); }
+         if (a.trace != alone.trace or b.trace != alone.trace or c.trace != alone.trace)
+            rep.violation(std::string("C20:trace-differs-from-sequential:") + program_name[p], p, std::string("running ") + program_name[p] + " on several Lexicons of one thread observes something else than on a single Lexicon", vf::JObj{}.str("pass", "C20").raw("ops", vf::jarr(std::vector<long long>{ 2, p })).raw("schedule", "[]").done());
+         rep.count("traces"); rep.count("states", 3); rep.count("transitions", 3);
+      }
+   }
+
    void sequential_references()
    {
       for (int shape = 0; shape < 2; ++shape)
@@ -515,6 +563,25 @@ namespace {
 #ifdef C20_TSAN
    void free_running()
    {
+      // cold start: the very first use of the library in this process happens on 8 threads at once (anything built
+      // lazily behind a flag is raced for here, and only here); every shard starts with another program
+      {
+         const int n = 8, prog = opt.shard % NPROG;
+         std::vector<ThreadResult> res(static_cast<std::size_t>(n));
+         for (auto& r : res) prepare(r);
+         std::vector<std::thread> th;
+         std::atomic<int> go{ 0 };
+         for (int t = 0; t < n; ++t) th.emplace_back([&, t, prog] { while (go.load(std::memory_order_acquire) == 0) { } body(t % 2, (prog + t / 4) % NPROG, t, res[std::size_t(t)]); });
+         go.store(1, std::memory_order_release);
+         for (auto& t : th) t.join();
+         for (int t = 0; t < n; ++t) {
+            ThreadResult alone; prepare(alone); body(t % 2, (prog + t / 4) % NPROG, t, alone);
+            if (res[std::size_t(t)].trace != alone.trace)
+               rep.violation(std::string("C20:trace-differs-from-sequential:") + program_name[(prog + t / 4) % NPROG], n, std::string("cold start: a thread running ") + program_name[(prog + t / 4) % NPROG] + " as one of the first 8 users of the library in the process observed something else than when run alone",
+                             vf::JObj{}.str("pass", "C20tsan").raw("ops", vf::jarr(std::vector<long long>{ n, -1, prog })).done());
+         }
+         rep.count("traces"); rep.count("states", n); rep.count("transitions", n);
+      }
       // the same bodies, no scheduler: ThreadSanitizer sees the threads share no happens-before edge at all
       std::vector<std::string> ref[2][NPROG];
       for (int shape = 0; shape < 2; ++shape) for (int p = 0; p < NPROG; ++p) for (int salt = 0; salt < 16; ++salt) { ThreadResult r; prepare(r); body(shape, p, salt, r); ref[shape][p].push_back(r.trace); }
@@ -568,12 +635,14 @@ int main(int argc, char** argv)
    verbose = not opt.replay.empty();
    constants = shared_constants();
    sequential_references();
+   if (opt.shard == 0 or verbose) two_alive_on_one_thread();
    vf::env::hook = [](int kind) { sched::point(kind); };
    if (verbose) {
       auto text = vf::slurp(opt.replay);
       auto ops = vf::json_int_array(text, "ops");
       auto schedule = vf::json_int_array(text, "schedule");
       if (ops.size() < 2) { std::printf("bad replay file\n"); return 2; }
+      if (ops[0] == 2) { for (auto& [k, v] : rep.viols) std::printf("violated: %s  (%s)\n", k.c_str(), v.what.c_str()); return rep.viols.empty() ? 0 : 1; }
       Config cfg{ int(ops[0]), { } };
       for (std::size_t i = 1; i < ops.size(); ++i) cfg.progs.push_back(int(ops[i]));
       std::vector<int> prefix(schedule.begin(), schedule.end());
